@@ -123,22 +123,28 @@ func mustPassX(info *types.Info, body *ast.BlockStmt, sites []token.Pos, allowed
 		}
 		return false, -1
 	}
-	seen := map[*cfg.Block]bool{}
+	type key struct {
+		b     *cfg.Block
+		empty bool
+	}
+	seen := map[key]bool{}
 	var escape token.Pos
 	ok := true
-	var dfs func(b *cfg.Block)
-	dfs = func(b *cfg.Block) {
-		if seen[b] || !ok {
+	// empty: on this path a test has established that the collection the rule ranges over is empty (the false arm of
+	// `if len(E) > 0`, the true arm of `if len(E) == 0`, in any spelling): nothing is skipped by returning
+	var dfs func(b *cfg.Block, empty bool)
+	dfs = func(b *cfg.Block, empty bool) {
+		if seen[key{b, empty}] || !ok {
 			return
 		}
-		seen[b] = true
+		seen[key{b, empty}] = true
 		m, mi := marked(b)
 		for i, n := range b.Nodes {
 			if m && i >= mi {
 				return // passed a site
 			}
 			if ret, isRet := n.(*ast.ReturnStmt); isRet {
-				if !failureReturn(info, ret, parents) && !(allowedEmpty != nil && emptyGuarded(ret, parents, allowedEmpty)) {
+				if !empty && !failureReturn(info, ret, parents) && !(allowedEmpty != nil && emptyGuarded(ret, parents, allowedEmpty)) {
 					ok = false
 					escape = ret.Pos()
 				}
@@ -151,19 +157,33 @@ func mustPassX(info *types.Info, body *ast.BlockStmt, sites []token.Pos, allowed
 		if len(b.Succs) == 0 {
 			// fell off the end of the function (no explicit return)
 			if len(b.Nodes) == 0 || func() bool { _, isRet := b.Nodes[len(b.Nodes)-1].(*ast.ReturnStmt); return !isRet }() {
-				if b.Live {
+				if b.Live && !empty {
 					ok = false
 					escape = body.End()
 				}
 			}
 			return
 		}
+		if len(b.Succs) == 2 && len(b.Nodes) > 0 && allowedEmpty != nil {
+			if cond, isExpr := b.Nodes[len(b.Nodes)-1].(ast.Expr); isExpr {
+				if e := emptinessTestOf(cond); e != nil && allowedEmpty(e) {
+					dfs(b.Succs[0], true)
+					dfs(b.Succs[1], empty)
+					return
+				}
+				if e := nonEmptinessTestOf(cond); e != nil && allowedEmpty(e) {
+					dfs(b.Succs[0], empty)
+					dfs(b.Succs[1], true)
+					return
+				}
+			}
+		}
 		for _, s := range b.Succs {
-			dfs(s)
+			dfs(s, empty)
 		}
 	}
 	if len(g.Blocks) > 0 {
-		dfs(g.Blocks[0])
+		dfs(g.Blocks[0], false)
 	}
 	return ok, escape
 }
